@@ -40,6 +40,8 @@ def required_cells(tier):
         req["exact:" + t] = 100
     req["promotion"] = 125
     req["promotion:non-dyadic-float"] = 30
+    for t in ("Fraction", "float", "Decimal"):
+        req["promotion:after-item-assignment/" + t] = 100
     for t in ("int", "float", "Fraction"):
         req["numeric:" + t] = 200
     for rel in ("generic", "parallel", "antiparallel", "perpendicular"):
@@ -60,6 +62,10 @@ def cases(rng, budget, widx, nworkers, tier):
                        "nd": [rng.choice((0.1, 0.3, 0.7, -0.9)) for _ in range(3)]}
     while True:
         r = rng.random()
+        if r < 0.04:
+            yield {"k": "promotion-after-assignment", "t2": rng.choice(("Fraction", "float", "Decimal")), "i": rng.randrange(3),
+                   "vals": [[rng.randint(-9, 9) for _ in range(3)] for _ in range(2)], "s": rng.randint(-7, 7) or 2, "den": rng.choice((2, 4, 5))}
+            continue
         if r < 0.4:
             t = rng.choice(TYPES)
             vals = [[rng.randint(-9, 9) for _ in range(3)] for _ in range(2)]
@@ -247,6 +253,36 @@ def judge(case):
                 return z if isinstance(z, Poly) else Poly(F(z))
             if not all(exact(x).same(exact(it)) for x, it in zip(o, items)):
                 mu.fail("promotion:value-changed", "components %r from items %r: promotion changed a value" % (o, items))
+        return mu.result()
+    if k == "promotion-after-assignment":
+        # an int vector gets ONE component of a more general type by item assignment; the vectors the library then builds
+        # from it (sum, difference, multiples, negation, cross product) are vectors like any other: all their components
+        # carry the most general type among the components that went in, with the textbook values
+        t2 = case["t2"]
+        mu.cell("promotion:after-item-assignment/" + t2)
+        a, b = list(case["vals"][0]), list(case["vals"][1])
+        try:
+            A, B = G.Vector(*a), G.Vector(*b)
+            val = _mkval(t2, a[case["i"]] * 2 + 1, case["den"] if t2 != "float" else 2)
+            A[case["i"]] = val
+            a[case["i"]] = val
+            kk = case["s"]
+            res = {"add": A + B, "sub": A - B, "mul-scalar": A * kk, "rmul-scalar": kk * A, "neg": -A, "cross": A.cross(B), "radd": B + A}
+        except Exception as e:
+            mu.fail("promotion-after-assignment:raises-%s/%s" % (type(e).__name__, t2), "vector algebra after v[i] = %s raised %s: %s" % (t2, type(e).__name__, e))
+            return mu.result()
+        ex = lambda z: F(z) if not isinstance(z, float) else F(z)
+        fa, fb = [ex(x) for x in a], [ex(x) for x in b]
+        want = {"add": [x + y for x, y in zip(fa, fb)], "radd": [x + y for x, y in zip(fa, fb)], "sub": [x - y for x, y in zip(fa, fb)],
+                "mul-scalar": [x * kk for x in fa], "rmul-scalar": [x * kk for x in fa], "neg": [-x for x in fa],
+                "cross": [fa[1] * fb[2] - fa[2] * fb[1], fa[2] * fb[0] - fa[0] * fb[2], fa[0] * fb[1] - fa[1] * fb[0]]}
+        for op, v in res.items():
+            gc = _comps(v)
+            if any(type(x) is not PYT[t2] for x in gc):
+                mu.fail("promotion-after-assignment:%s:mixed-types/%s" % (op, t2), "%s of a vector with components %r gave component types %s, expected all %s" % (
+                    op, a, [type(x).__name__ for x in gc], PYT[t2].__name__))
+            elif [ex(x) for x in gc] != want[op]:
+                mu.fail("promotion-after-assignment:%s:wrong-components" % op, "%s gave %r, textbook %r" % (op, gc, want[op]))
         return mu.result()
     if k == "exact":
         t = case["t"]
